@@ -333,6 +333,7 @@ pub fn plan(prop: &str, tier: &str) -> Option<Plan> {
                     s.push(e2(prop, "zst", H_GOOD, "look+mut+ch1+bulk2+shape2+iterlite", &fl, 1, prof, 45.0));
                     s.push(e1(prop, "u32", H_TAG, 0, "look1+mut+ch1+bulk+shape", &fl, if prof == "asan" { 48 } else { 64 }, 1, 1, prof, 45.0));
                     s.push(as_set(e1(prop, "tk", H_GOOD, 0, "skey+sshape", &fl, if prof == "asan" { 33 } else { 64 }, 1, 1, prof, 45.0)));
+                    s.push(e1(prop, "tk", H_GOOD, 0, "wrong/look1+mut+ch0+shape+iterlite", &fl, if prof == "asan" { 16 } else { 31 }, 2, 0, prof, 45.0));
                     s.push(as_set(e2(prop, "tk", H_LOW, "skey+sshape2", &fl, 3, prof, 45.0)));
                     s.push(as_set(e2(prop, "zst", H_GOOD, "skey+sshape2", &fl, 1, prof, 45.0)));
                 }
@@ -348,6 +349,8 @@ pub fn plan(prop: &str, tier: &str) -> Option<Plan> {
                     s.push(e2(prop, "zst", H_GOOD, "look+mut+ch1+bulk2+shape2+iterlite", &fl, 1, prof, 200.0));
                     s.push(e1(prop, "u32", H_TAG, 0, "look1+mut+ch1+bulk+shape", &fl, 130, 1, 1, prof, 900.0));
                     s.push(as_set(e1(prop, "tk", H_GOOD, 0, "skey+sshape+siter", &fl, 64, 1, 1, prof, 900.0)));
+                    s.push(e1(prop, "tk", H_GOOD, 0, "wrong/look1+mut+ch0+shape+iterlite", &fl, 40, 2, 0, prof, 1200.0));
+                    s.push(e1(prop, "tk", H_LOW, 0, "wrong/look1+mut+ch0+shape+iterlite", &fl, 31, 2, 1, prof, 1200.0));
                     s.push(as_set(e1(prop, "tk", H_LOW, 0, "skey+sshape", &fl, 31, 2, 1, prof, 1200.0)));
                     s.push(as_set(e2(prop, "tk", H_LOW, "skey+sshape2", &fl, 4, prof, 1200.0)));
                     s.push(as_set(e2(prop, "zst", H_GOOD, "skey+sshape2", &fl, 1, prof, 100.0)));
